@@ -226,6 +226,11 @@ def run(ctx):
             exprs.append("link_chk mods_%d %s %s %s %s %s" % (ci, coq_list([ircoq.s(a) for a in l["adds"]]), "true" if l["ok"] else "false",
                                                             coq_list([ircoq.s(x) for x in l.get("fnkeys", [])]), coq_list([ircoq.s(x) for x in l.get("globals", [])]),
                                                             coq_list([ircoq.s(x) for x in l.get("trace", [])])))
+            imported_somewhere = {x for mm in r["modules"].values() for x in mm["imports"]}
+            if l["ok"] and (kind.startswith("duplicate-") or (kind == "split+added-and-imported" and any(a in imported_somewhere for a in l["adds"]))):
+                # the property itself: two definitions of the same function or global are rejected
+                direct_bad.append((kind, j, {"what": "a link in which the same function or global is defined twice was accepted instead of rejected", "order_of_AddModule": l["adds"],
+                                             "linked_functions": l.get("fnkeys"), "linked_globals": l.get("globals")}))
             if l["ok"]:
                 # behaviour: the linked program against the single-module program, and against the VM model on the linked IR
                 prog = ircoq.program({"functions": l["ir"]["functions"], "globals": l["ir"]["globals"]})
